@@ -26,6 +26,13 @@ func (e StdEng) argmaxDenseTensor(t DenseTensor, axis int) (retVal *Dense, err e
 
 	// SPECIAL CASE: FLAT ARGMAX
 	if axis == AllAxes {
+		if v, ok := t.(View); ok && v.IsMaterializable() {
+			// the flat index is an index into the logical (row-major) sequence, not into the storage of a view
+			if t, ok = v.Materialize().(DenseTensor); !ok {
+				return nil, errors.Errorf(typeNYI, "StdEng.Argmax", v)
+			}
+			dataA = t.hdr()
+		}
 		var index int
 		if mt, ok := t.(MaskedTensor); ok && mt.IsMasked() {
 			if index = e.E.ArgmaxFlatMasked(typ, dataA, mt.Mask()); index == -1 {
@@ -113,6 +120,13 @@ func (e StdEng) argminDenseTensor(t DenseTensor, axis int) (retVal *Dense, err e
 
 	// SPECIAL CASE: FLAT ARGMAX
 	if axis == AllAxes {
+		if v, ok := t.(View); ok && v.IsMaterializable() {
+			// the flat index is an index into the logical (row-major) sequence, not into the storage of a view
+			if t, ok = v.Materialize().(DenseTensor); !ok {
+				return nil, errors.Errorf(typeNYI, "StdEng.Argmin", v)
+			}
+			dataA = t.hdr()
+		}
 		var index int
 		if mt, ok := t.(MaskedTensor); ok && mt.IsMasked() {
 			if index = e.E.ArgminFlatMasked(typ, dataA, mt.Mask()); index == -1 {
